@@ -153,8 +153,13 @@ def run(ctx, widen=False):
     hdr = []
     for c in g["codepage"]:
         hdr += [f"@f:{c}|1;", f"@f:a{c}b|1;", f"@f:{c}{c}:2|1;", f"@{c}|1;", f"@{c};", f"({c}|1)", f"(a{c}|1)", f"→a{c}", f"λ{c}|1;"]
+    import itertools as _it
+    for L in (1, 2, 3):
+        for t in _it.product("0129", repeat=L):
+            d = "".join(t)
+            hdr += [f"@f:{d}|1;", f"@f:a:{d}|+;", f"λ{d}|1;", f"@f:{d}:*|W;", f"({d}|1)", f"@{d}|1;@{d};"]
     progs += hdr
-    ctx.bump("(e) headers with every code-page character", len(hdr))
+    ctx.bump("(e) headers with every code-page character and every short digit string", len(hdr))
     progs = list(dict.fromkeys(progs))
     cases = [{"prog": p, "dict": True} for p in progs] + [{"prog": p, "dict": False} for p in esc + progs[:2000]]
     ctx.check_many("compiles", cases)
